@@ -14,6 +14,7 @@ from fractions import Fraction
 import z3
 
 from .core import CTX, Unsupported
+from . import poly as P
 
 INF = float("inf")
 NINF = float("-inf")
@@ -188,12 +189,70 @@ def zbool(b):
     return z3.BoolVal(bool(b))
 
 
-def _is_special(v):
-    return isinstance(v, float)
-
-
 def _fracval(fr):
     return z3.RealVal(str(fr.numerator) + "/" + str(fr.denominator)) if fr.denominator != 1 else z3.RealVal(fr.numerator)
+
+
+class Sym:
+    """A symbolic finite real: a rational function in normal form (rf) and/or a z3 term (zt)."""
+    __slots__ = ("rf", "zt", "special")
+
+    def __init__(self, rf=None, zt=None):
+        self.rf = rf
+        self.zt = zt
+        if rf is not None:
+            self.special = tuple(i for i in (P.p_atoms(rf[0]) | P.p_atoms(rf[1])) if P.ATOMS[i].kind in ("psqrt", "gsqrt"))
+        else:
+            self.special = ()
+
+    def z(self):
+        if self.zt is None:
+            self.zt = P.rf_to_z3(self.rf)
+        if self.special:
+            decl = CTX.cache.setdefault("declared_atoms", set())
+            for i in self.special:
+                if i not in decl:
+                    _declare_atom(i, decl)
+        return self.zt
+
+    def get_id(self):
+        return self.z().get_id()
+
+
+def _declare_atom(i, decl):
+    decl.add(i)
+    at = P.ATOMS[i]
+    if at.kind == "psqrt":
+        CTX.constrain_aux(z3.And(at.zc > 0, at.zc * at.zc == at.prime))
+    elif at.kind == "gsqrt":
+        rad = Sym(at.radicand)
+        CTX.constrain_aux(z3.And(at.zc >= 0, at.zc * at.zc == rad.z()))
+
+
+def _rf_of(v):
+    """Fraction | Sym -> rf or None."""
+    if isinstance(v, Fraction):
+        return (P.p_const(v), P.P_ONE)
+    return v.rf
+
+
+def _mk(rf):
+    """rf -> SReal (collapsing constants, degrading oversized forms to an opaque atom)."""
+    if P.rf_is_const(rf):
+        return SReal(P.p_const_value(rf[0]))
+    if P.rf_size(rf) > P.SIZE_LIMIT:
+        zt = Sym(rf).z()
+        return SReal(Sym((P.p_atom(P.atom_for_opaque(zt)), P.P_ONE), zt))
+    return SReal(Sym(rf))
+
+
+def sym_from_z3(e):
+    e = z3.simplify(e)
+    if z3.is_rational_value(e):
+        return SReal(Fraction(e.numerator_as_long(), e.denominator_as_long()))
+    if z3.is_const(e) and e.decl().kind() == z3.Z3_OP_UNINTERPRETED:
+        return SReal(Sym((P.p_atom(P.atom_for_const(e)), P.P_ONE), e))
+    return SReal(Sym((P.p_atom(P.atom_for_opaque(e)), P.P_ONE), e))
 
 
 class SReal:
@@ -201,6 +260,8 @@ class SReal:
     __array_priority__ = 1000
 
     def __init__(self, v):
+        if isinstance(v, z3.ExprRef):
+            v = sym_from_z3(v).v
         self.v = v
 
     # ---- construction ----------------------------------------------------
@@ -219,19 +280,16 @@ class SReal:
         if isinstance(c, (int, bool, Fraction, XInt)):
             return SReal(frac_of(c))
         if isinstance(c, z3.ArithRef):
-            return SReal.sym(c)
+            return sym_from_z3(c)
         if isinstance(c, SBool):
-            return SReal(z3.If(c.e, z3.RealVal(1), z3.RealVal(0)))
+            return sym_from_z3(z3.If(c.e, z3.RealVal(1), z3.RealVal(0)))
         if hasattr(c, "shape") and getattr(c, "shape", None) == ():
             return SReal.of(c.item())
         raise Unsupported("cannot make a scalar from %r" % (type(c),))
 
     @staticmethod
     def sym(e):
-        e = z3.simplify(e)
-        if z3.is_rational_value(e):
-            return SReal(Fraction(e.numerator_as_long(), e.denominator_as_long()))
-        return SReal(e)
+        return sym_from_z3(e)
 
     # ---- classification --------------------------------------------------
     @property
@@ -244,7 +302,10 @@ class SReal:
 
     @property
     def is_symbolic(self):
-        return not isinstance(self.v, (Fraction, float))
+        return isinstance(self.v, Sym)
+
+    def is_algebraic_const(self):
+        return isinstance(self.v, Sym) and self.v.rf is not None and P.rf_is_algebraic_const(self.v.rf)
 
     def z(self):
         """z3 term of a finite value."""
@@ -252,19 +313,37 @@ class SReal:
             return _fracval(self.v)
         if isinstance(self.v, float):
             raise Unsupported("special value %r used as a finite term" % self.v)
-        return self.v
+        return self.v.z()
 
-    def sign_concrete(self):
-        """-1/0/1 for concrete or special values, forks for symbolic ones."""
+    def eval_float(self, ctx=None):
+        if isinstance(self.v, (Fraction, float)):
+            return float(self.v)
+        return (ctx or CTX).eval_float(self.z())
+
+    def _const_sign(self):
+        """sign if decidable without the solver, else None."""
         if isinstance(self.v, Fraction):
             return (self.v > 0) - (self.v < 0)
+        if isinstance(self.v, Sym) and self.v.rf is not None and P.rf_is_algebraic_const(self.v.rf) and self.v.rf[1] == P.P_ONE:
+            try:
+                return P.algebraic_sign(self.v.rf[0])
+            except ValueError:
+                return None
+        return None
+
+    def sign_concrete(self):
+        """-1/0/1 (None for NaN); forks for symbolic values."""
         if isinstance(self.v, float):
             if self.v != self.v:
                 return None
             return 1 if self.v > 0 else -1
-        if CTX.decide(self.v > 0):
+        s = self._const_sign()
+        if s is not None:
+            return s
+        z = self.z()
+        if CTX.decide(z > 0):
             return 1
-        if CTX.decide(self.v < 0):
+        if CTX.decide(z < 0):
             return -1
         return 0
 
@@ -272,9 +351,7 @@ class SReal:
     def _coerce(self, o):
         if isinstance(o, SReal):
             return o
-        if isinstance(o, (int, float, Fraction, XInt, bool)):
-            return SReal.of(o)
-        if isinstance(o, SBool):
+        if isinstance(o, (int, float, Fraction, XInt, bool, SBool)):
             return SReal.of(o)
         return None
 
@@ -293,16 +370,19 @@ class SReal:
             return o
         if isinstance(b, Fraction) and b == 0:
             return self
-        return SReal.sym(self.z() + o.z())
+        ra, rb = _rf_of(a), _rf_of(b)
+        if ra is not None and rb is not None:
+            return _mk(P.rf_add(ra, rb))
+        return sym_from_z3(self.z() + o.z())
 
     __radd__ = __add__
 
     def __neg__(self):
-        if isinstance(self.v, float):
+        if isinstance(self.v, (float, Fraction)):
             return SReal(-self.v)
-        if isinstance(self.v, Fraction):
-            return SReal(-self.v)
-        return SReal.sym(-self.v)
+        if self.v.rf is not None:
+            return SReal(Sym(P.rf_neg(self.v.rf)))
+        return sym_from_z3(-self.z())
 
     def __pos__(self):
         return self
@@ -311,22 +391,13 @@ class SReal:
         o = self._coerce(o)
         if o is None:
             return NotImplemented
-        a, b = self.v, o.v
-        if not isinstance(a, float) and not isinstance(b, float):
-            if isinstance(a, Fraction) and isinstance(b, Fraction):
-                return SReal(a - b)
-            if isinstance(b, Fraction) and b == 0:
-                return self
-            if (not isinstance(a, Fraction)) and (not isinstance(b, Fraction)) and a.get_id() == b.get_id():
-                return SReal(Fraction(0))
-            return SReal.sym(self.z() - o.z())
         return self + (-o)
 
     def __rsub__(self, o):
         o = self._coerce(o)
         if o is None:
             return NotImplemented
-        return o - self
+        return o + (-self)
 
     def __mul__(self, o):
         o = self._coerce(o)
@@ -352,9 +423,24 @@ class SReal:
                 return SReal(Fraction(0))
             if b == 1:
                 return self
-        return SReal.sym(self.z() * o.z())
+        ra, rb = _rf_of(a), _rf_of(b)
+        if ra is not None and rb is not None:
+            return _mk(P.rf_mul(ra, rb))
+        return sym_from_z3(self.z() * o.z())
 
     __rmul__ = __mul__
+
+    def _is_zero(self):
+        """concrete bool (forking if needed): is this finite value zero?"""
+        s = self._const_sign()
+        if s is not None:
+            return s == 0
+        if self.v.rf is not None:
+            num = self.v.rf[0]
+            if P.p_is_const(num):
+                return P.p_const_value(num) == 0
+            return CTX.decide(SReal(Sym((num, P.P_ONE))).z() == 0)
+        return CTX.decide(self.z() == 0)
 
     def __truediv__(self, o):
         o = self._coerce(o)
@@ -363,34 +449,29 @@ class SReal:
         a, b = self.v, o.v
         if isinstance(a, float) and a != a or isinstance(b, float) and b != b:
             return SReal(NAN)
-        if isinstance(b, float):          # x / ±inf
+        if isinstance(b, float):          # x / +-inf
             if isinstance(a, float):
                 return SReal(NAN)
             return SReal(Fraction(0))
-        if isinstance(a, float):          # ±inf / finite
+        if isinstance(a, float):          # +-inf / finite
             sb = o.sign_concrete()
             if sb == 0:
                 sb = 1                    # inf / 0.0 -> inf (NumPy, +0.0)
             return SReal(INF if (a > 0) == (sb > 0) else NINF)
-        # finite / finite
-        if isinstance(b, Fraction):
-            if b == 0:
-                sa = self.sign_concrete()
-                CTX.event("div_by_zero")
-                return SReal(NAN if sa == 0 else (INF if sa > 0 else NINF))
-            if isinstance(a, Fraction):
-                return SReal(a / b)
-            if b == 1:
-                return self
-            return SReal.sym(self.z() / _fracval(b))
-        # symbolic divisor: fork on zero
-        if CTX.decide(b == 0):
+        if isinstance(a, Fraction) and isinstance(b, Fraction) and b != 0:
+            return SReal(a / b)
+        if o._is_zero():
             sa = self.sign_concrete()
             CTX.event("div_by_zero")
             return SReal(NAN if sa == 0 else (INF if sa > 0 else NINF))
         if isinstance(a, Fraction) and a == 0:
             return SReal(Fraction(0))
-        return SReal.sym(self.z() / b)
+        if isinstance(b, Fraction) and b == 1:
+            return self
+        ra, rb = _rf_of(a), _rf_of(b)
+        if ra is not None and rb is not None:
+            return _mk(P.rf_mul(ra, P.rf_inv(rb)))
+        return sym_from_z3(self.z() / o.z())
 
     def __rtruediv__(self, o):
         o = self._coerce(o)
@@ -425,13 +506,15 @@ class SReal:
         return r
 
     def __abs__(self):
-        if isinstance(self.v, float):
+        if isinstance(self.v, (float, Fraction)):
             return SReal(abs(self.v))
-        if isinstance(self.v, Fraction):
-            return SReal(abs(self.v))
+        s = self._const_sign()
+        if s is not None:
+            return self if s >= 0 else -self
         if ITE_MODE[0]:
-            return SReal.sym(z3.If(self.v >= 0, self.v, -self.v))
-        return self if CTX.decide(self.v >= 0) else -self
+            z = self.z()
+            return sym_from_z3(z3.If(z >= 0, z, -z))
+        return self if CTX.decide(self.z() >= 0) else -self
 
     # ---- comparisons -------------------------------------------------------
     def _cmp(self, o, op):
@@ -443,7 +526,6 @@ class SReal:
             if (isinstance(a, float) and a != a) or (isinstance(b, float) and b != b):
                 CTX.event("nan_compare")
                 return op == "ne"
-            # at least one infinity; symbolic values are finite
             fa = a if isinstance(a, float) else 0.0
             fb = b if isinstance(b, float) else 0.0
             return {"lt": fa < fb, "le": fa <= fb, "gt": fa > fb, "ge": fa >= fb,
@@ -451,6 +533,18 @@ class SReal:
         if isinstance(a, Fraction) and isinstance(b, Fraction):
             return {"lt": a < b, "le": a <= b, "gt": a > b, "ge": a >= b,
                     "eq": a == b, "ne": a != b}[op]
+        ra, rb = _rf_of(a), _rf_of(b)
+        if ra is not None and rb is not None:
+            if P.rf_equal(ra, rb):
+                return op in ("le", "ge", "eq")
+            d = self - o
+            s = d._const_sign()
+            if s is not None:
+                return {"lt": s < 0, "le": s <= 0, "gt": s > 0, "ge": s >= 0, "eq": s == 0, "ne": s != 0}[op]
+            if op in ("eq", "ne") and isinstance(d.v, Sym) and d.v.rf is not None:
+                num = SReal(Sym((d.v.rf[0], P.P_ONE))).z()
+                e = (num == 0)
+                return SBool.mk(e if op == "eq" else z3.Not(e))
         za, zb = self.z(), o.z()
         if op == "lt":
             return SBool.mk(za < zb)
@@ -512,7 +606,7 @@ class SReal:
             return "R(%s)" % self.v
         if isinstance(self.v, float):
             return "R(%r)" % self.v
-        s = str(self.v)
+        s = str(self.v.z())
         return "R<%s>" % (s if len(s) < 60 else s[:57] + "...")
 
     # numpy-scalar look-alikes
@@ -555,24 +649,32 @@ def sqrt(x):
         if v < 0:
             CTX.event("sqrt_negative")
             return SReal(NAN)
-        n, d = v.numerator, v.denominator
-        rn, rd = math.isqrt(n), math.isqrt(d)
-        if rn * rn == n and rd * rd == d:
-            return SReal(Fraction(rn, rd))
-        s = CTX.fresh("sqrt")
-        CTX.constrain_aux(z3.And(s >= 0, s * s == _fracval(v)))
-        return SReal(s)
-    if CTX.decide(v < 0):
+        if v == 0:
+            return SReal(Fraction(0))
+        pol = P.sqrt_of_fraction(v)
+        if pol is not None:
+            return _mk((pol, P.P_ONE))
+    s = x._const_sign()
+    if s is None:
+        neg = CTX.decide(x.z() < 0)
+    else:
+        neg = s < 0
+    if neg:
         CTX.event("sqrt_negative")
         return SReal(NAN)
-    key = ("sqrt", v.get_id())
+    zt = x.z()
+    key = ("sqrt", zt.get_id())
     cache = CTX.cache
     if key in cache:
         return cache[key]
-    s = CTX.fresh("sqrt")
-    CTX.keep.append(v)
-    CTX.constrain_aux(z3.And(s >= 0, s * s == v))
-    r = SReal(s)
+    CTX.keep.append(zt)
+    sv = CTX.fresh("sqrt")
+    rad = _rf_of(v) if not isinstance(v, Sym) or v.rf is not None else None
+    if rad is None:
+        rad = (P.p_atom(P.atom_for_opaque(zt)), P.P_ONE)
+    i = P.atom_for_gsqrt(sv, rad)
+    r = SReal(Sym((P.p_atom(i), P.P_ONE), sv))
+    r.z()      # declares the atom on this path
     cache[key] = r
     return r
 
